@@ -26,6 +26,8 @@
 #include <unistd.h>
 #include <sys/stat.h>
 #include <netdb.h>
+#include <signal.h>
+#include <sys/time.h>
 
 /* ------------------------------------------------------------------ allocator accounting */
 static long live_blocks;
@@ -841,7 +843,56 @@ static void run_hosts(long k, const params_t *p)
 }
 
 /* ------------------------------------------------------------------ main */
+/* ------------------------------------------------------------------ watchdog */
+/* Every case runs under a CPU-time limit (the whole process, all threads): initialisation,
+ * re-initialisation and the setters must never hang on any configuration text.  When the limit
+ * expires the handler reports the case and restarts the driver at the next case - a new process
+ * image, because the spinning code may hold locks or run in a library thread.  Only
+ * async-signal-safe calls after snprintf. */
+#define HANG_SECS 4
+static char       **g_argv;
+static int          g_argc;
+static volatile long hang_case = -1;
+static void on_hang(int sig)
+{
+  char             b[160], next[32];
+  char            *args[4];
+  int              n;
+  struct itimerval off;
+  (void)sig;
+  if (hang_case < 0) return;
+  memset(&off, 0, sizeof(off));
+  setitimer(ITIMER_PROF, &off, NULL);
+  n = snprintf(b, sizeof(b), "\n%ld R HANG cpu=%ds\nEND %ld\n", hang_case, HANG_SECS, hang_case);
+  if (write(1, b, (size_t)n) < 0) _exit(78);
+  if (g_argc > 3) { /* one case per process: nothing left to run */
+    if (write(1, "DONE\n", 5) < 0) _exit(78);
+    _exit(0);
+  }
+  snprintf(next, sizeof(next), "%ld", hang_case + 1);
+  args[0] = g_argv[0]; args[1] = g_argv[1]; args[2] = next; args[3] = NULL;
+  execv(g_argv[0], args);
+  _exit(77);
+}
+
+static void watchdog(long k)
+{
+  struct itimerval it;
+  memset(&it, 0, sizeof(it));
+  hang_case = k;
+  if (k >= 0) it.it_value.tv_sec = HANG_SECS;
+  setitimer(ITIMER_PROF, &it, NULL);
+}
+
+static void run_case_inner(long k, char *line);
 static void run_case(long k, char *line)
+{
+  watchdog(k);
+  run_case_inner(k, line);
+  watchdog(-1);
+}
+
+static void run_case_inner(long k, char *line)
 {
   char    *bar  = strchr(line, '|');
   char    *comma;
@@ -882,6 +933,18 @@ int main(int argc, char **argv)
   snprintf(path_hosts, sizeof(path_hosts), "%s/hosts", tmpdir);
   snprintf(path_alias, sizeof(path_alias), "%s/hostaliases", tmpdir);
   ares_library_init_mem(ARES_LIB_INIT_ALL, cnt_malloc, cnt_free, cnt_realloc);
+  {
+    struct sigaction sa;
+    sigset_t         ss;
+    g_argv = argv;
+    g_argc = argc;
+    memset(&sa, 0, sizeof(sa));
+    sa.sa_handler = on_hang;
+    sigaction(SIGPROF, &sa, NULL);
+    sigemptyset(&ss);                /* the mask survives execv: the handler restarted us */
+    sigaddset(&ss, SIGPROF);
+    sigprocmask(SIG_UNBLOCK, &ss, NULL);
+  }
   rc = drv_main(argc, argv, run_case);
   ares_library_cleanup();
   unlink(path_resolv); unlink(path_nss); unlink(path_netsvc); unlink(path_svc); unlink(path_hosts); unlink(path_alias);
